@@ -12,6 +12,32 @@ from common import Verdict, tier as get_tier, machinery_error, VERIF
 LEVELS = json.load(open(os.path.join(VERIF, 'tools', 'levels.json')))
 
 
+def show_recorded(rec):
+    d = rec['data']
+    print('replaying %s: property=%s tier=%s seed=%s cause=%s' % (rec['path'], d.get('property'), d.get('tier'), d.get('seed'), d.get('cause')))
+    if d.get('clause'):
+        print('  clause: %s' % d['clause'])
+    if d.get('detail'):
+        print('  recorded detail: %s' % str(d['detail'])[:400])
+    inp = d.get('input')
+    if isinstance(inp, dict) and inp.get('kind') == 'document' and 'text' in inp:
+        # what the implementation does with the recorded document now
+        sys.path.insert(0, os.environ.get('VERIF_REPO', '/repo'))
+        try:
+            from pydbml import PyDBML
+            kw = {}
+            if inp.get('allow_properties'):
+                kw['allow_properties'] = True
+            try:
+                db = PyDBML(inp['text'], **kw)
+                print('  the implementation now accepts the recorded document: %d tables, %d refs, %d enums' % (len(db.tables), len(db.refs), len(db.enums)))
+            except Exception as e:   # noqa
+                print('  the implementation now rejects the recorded document: %s.%s' % (type(e).__module__, type(e).__name__))
+        except Exception as e:   # noqa
+            print('  (pydbml cannot be imported: %r)' % (e,))
+    print('re-running the %s check with the recorded seed: the same inputs are generated and judged again' % d.get('property'), flush=True)
+
+
 def main():
     ap = argparse.ArgumentParser()
     ap.add_argument('pid')
@@ -24,13 +50,18 @@ def main():
         mod = importlib.import_module('prop_' + pid.lower())
     except ImportError as e:
         machinery_error('no check module for %s: %s' % (pid, e))
+    rec = None
+    if a.replay:
+        rec = {'path': os.path.abspath(a.replay), 'data': json.load(open(a.replay))}
+        os.environ['VERIF_SEED'] = str(rec['data'].get('seed', 0))
+        tr = get_tier(rec['data'].get('tier'))
+        show_recorded(rec)
     st = buildsys.ensure_built()
     if not st.get('driver_ok'):
         machinery_error('model does not build: ' + st.get('driver_log', '') + buildsys.error_excerpt(st.get('make_log', '')))
     pr = buildsys.compile_props(pid)
     v = Verdict(pid, tr, LEVELS.get(pid, 'other'))
-    if a.replay:
-        return mod.replay(a.replay)
+    v.replaying = rec
     try:
         mod.run(v, tr, st, pr)
     except SystemExit:
